@@ -105,7 +105,86 @@ def shards(tier, seed):
         scns = scns[:96]
     for c, s in zip(chunk(scns, n), split_seeds(seed + 404, n)):
         out.append(("conc", c, tier, s))
+    # (d) a FAILED store / tag must not take a referenced object with it: an I/O fault in one call while another call
+    # references the same content (the failing call's clean-up runs next to a reference it did not create)
+    for i, s in enumerate(split_seeds(seed + 405, len(FAULT_CONC))):
+        out.append(("faultconc", i, tier, s))
     return out
+
+
+def _fst(pid, c, **kw):
+    d = {"op": "store", "pid": pid, "content": c, "kind": "path"}
+    d.update(kw)
+    return d
+
+
+def _ftag(pid, c):
+    return {"op": "tag", "pid": pid, "cid": ["of", c]}
+
+
+FAULT_CONC = [
+    ("empty", [], [_fst("p1", "X"), _fst("p2", "X")]),
+    ("empty", [], [_fst("p1", "X"), _fst(None, "X"), _ftag("p2", "X")]),
+    ("X-unreferenced", [_fst(None, "X")], [_fst("p1", "X"), _ftag("p2", "X")]),
+    ("empty", [], [_fst("p1", "X"), _fst("p2", "X"), _fst("p1.v2", "X")]),
+    ("p2->X", [_fst("p2", "X")], [_fst("p1", "X"), _fst("p1.v2", "X", checksum="wrong", calgo="md5")]),
+]
+
+
+def run_faultconc(idx, tier, sub_seed):
+    import errno
+    from .. import concengine as C
+    from .. import concprops as P
+    from ..common import Inconclusive
+    from ..gen import op_shape
+    res = ShardResult()
+    rng = random.Random(sub_seed)
+    sname, start, calls = FAULT_CONC[idx]
+    scn = C.Scenario(f"{sname}|" + "||".join(P.call_name(o) for o in calls) + "|+fault", start, calls, P.SPEC,
+                     None, pids=["p1", "p2", "p1.v2"], fmts=[None], start_class=sname)
+    scratch = new_scratch("c04f")
+    try:
+        runner = C.ScenarioRunner(scn, scratch)
+        lay = runner.layout
+        # quick: the full one-preemption sweep for the publishing steps (renames) only; thorough: for every fault site
+        focus = (lambda desc: str(desc).startswith("rename:")) if tier == "quick" else None
+        for ob, _hyg, wk, k in C.explore_with_faults(runner, rng, 1, 4 if tier == "quick" else 30,
+                                                     rng.choice([errno.EIO, errno.ENOSPC, errno.EACCES]),
+                                                     dfs_cap=160 if tier == "quick" else 400, site_filter=focus, persistent=True):
+            if ob.deadlock or ob.hang or ob.harness_errors:
+                res.foreign["did-not-complete"] = res.foreign.get("did-not-complete", 0) + 1
+                continue
+            res.evaluations += 1
+            res.count("fault_under_contention_schedules")
+            res.distinct.add(str(hash((scn.name, wk, k, tuple(ob.trace)))))
+            site = (ob.fault_fired or "").split(":")[0] + ":" + "/".join((ob.fault_fired or "::").split(":")[2].split("/")[:2])
+            base = {"calls": sorted(op_shape(o) for o in scn.calls), "start": sname, "faulted_call": op_shape(scn.calls[wk]),
+                    "fault_site": site}
+            for symptom, detail in ob.removal_findings:
+                if symptom == "object-removed-while-referenced":
+                    wit = C.witness(runner, ob, symptom, detail)
+                    wit.update(fault={"worker": wk, "site": k, "operation": ob.fault_fired})
+                    res.violation(dict(base, symptom=symptom), wit)
+            # final state: every pid that is bound (pid reference + its line in the cid list) reaches its object
+            a = ob.final
+            for pid, cid in a.pid_refs.items():
+                if pid.startswith("?"):
+                    continue
+                lines = a.cid_lines(cid) or []
+                if pid in lines and cid not in a.objects:
+                    detail = {"pid": pid, "cid": cid, "outcomes": [list(x) for x in ob.okeys]}
+                    wit = C.witness(runner, ob, "bound-pid-lost-its-object", detail)
+                    wit.update(fault={"worker": wk, "site": k, "operation": ob.fault_fired})
+                    res.violation(dict(base, symptom="bound-pid-lost-its-object"), wit)
+                    break
+            res.count("bound_pids_checked_after_faulted_schedules", len(a.pid_refs))
+        res.sample({"scenario": scn.name, "schedules": res.evaluations})
+    except Inconclusive as inc:
+        res.inconclusive.append(f"{scn.name}: {inc}")
+    finally:
+        rmtree(scratch)
+        clear_atexit_tmp_handlers()
+    return res
 
 
 def min_required(tier):
@@ -230,6 +309,8 @@ def run_shard(mode, payload, tier, sub_seed):
         return res
     if mode == "long":
         return run_long(payload, sub_seed)
+    if mode == "faultconc":
+        return run_faultconc(payload, tier, sub_seed)
     if mode == "conc":
         from .. import concprops as P
         res = P.run_scenarios(payload, 1 if tier == "quick" else 2, 4 if tier == "quick" else 20, 0, sub_seed,
